@@ -1,6 +1,7 @@
 package props
 
 import (
+	"encoding/hex"
 	"bytes"
 	"encoding/json"
 	"os"
@@ -841,6 +842,18 @@ func c10Check(ctx *core.Ctx, cs *c10Case, schema *parquet.Schema, res c10Result,
 			sort.Strings(a)
 			sort.Strings(b)
 			if strings.Join(a, "\n") != strings.Join(b, "\n") {
+				// every column still holds the cells written, but the rows are no longer intact across
+				// their columns: name the columns that are out of step with the rest
+				if cols := c10ColumnsOutOfStep(in, out, len(schema.Columns())); cols != nil {
+					key := attributed("rows-not-intact")
+					what := fmt.Sprintf("%s: every column holds the values written, but the rows are not intact: column(s) %v moved out of step with the other columns", phase, cols)
+					if ph.rowIndex == "" && pi == 0 && c10AllEmptyByteArrayColumns(in, cols) && c10ColumnsKeepWrittenOrder(in, out, cols) {
+						key = "rows-not-intact-byte-array-column-with-empty-value"
+						what += " (BYTE_ARRAY column(s) holding an empty non-null value, whose values are still in the order they were written: the column did not follow the swaps)"
+					}
+					ctx.Fail("L1", key, what, detail(map[string]any{"out": oc, "columns_out_of_step": cols, "row_index": ph.rowIndex}))
+					return
+				}
 				ctx.Fail("L1", attributed("not-a-permutation"), phase+": rows out are not a permutation of rows in (whole rows)",
 					detail(map[string]any{"out": oc, "row_index": ph.rowIndex}))
 				return
@@ -946,6 +959,111 @@ func c10Check(ctx *core.Ctx, cs *c10Case, schema *parquet.Schema, res c10Result,
 	_ = hasNullable
 }
 
+// c10CanonWithout is c10Canon over the columns not in skip (nil: all) or, with only >= 0, over
+// that column alone.
+func c10CanonCols(row parquet.Row, skip map[int]bool, only int) string {
+	var sb strings.Builder
+	for _, v := range row {
+		if skip[v.Column()] || (only >= 0 && v.Column() != only) {
+			continue
+		}
+		if v.IsNull() {
+			fmt.Fprintf(&sb, "%d/%d/%d/n ", v.Column(), v.RepetitionLevel(), v.DefinitionLevel())
+		} else {
+			fmt.Fprintf(&sb, "%d/%d/%d/%s ", v.Column(), v.RepetitionLevel(), v.DefinitionLevel(), gen.ValueKey(v))
+		}
+	}
+	return sb.String()
+}
+
+func c10SameMultiset(in, out []parquet.Row, skip map[int]bool, only int) bool {
+	if len(in) != len(out) {
+		return false
+	}
+	count := map[string]int{}
+	for _, r := range in {
+		count[c10CanonCols(r, skip, only)]++
+	}
+	for _, r := range out {
+		k := c10CanonCols(r, skip, only)
+		if count[k] == 0 {
+			return false
+		}
+		count[k]--
+	}
+	return true
+}
+
+// c10ColumnsOutOfStep diagnoses rows that are not a permutation of the rows written: if every
+// leaf column on its own still holds the multiset of cells (row by row) that was written, it
+// returns a smallest-first set of columns whose removal makes the remaining columns a permutation
+// of whole rows again (the columns that moved out of step); nil if values were lost or invented.
+func c10ColumnsOutOfStep(in, out []parquet.Row, ncols int) []int {
+	for c := 0; c < ncols; c++ {
+		if !c10SameMultiset(in, out, nil, c) {
+			return nil
+		}
+	}
+	// single columns first, then pairs, then give up naming them (all columns reported)
+	for c := 0; c < ncols; c++ {
+		if c10SameMultiset(in, out, map[int]bool{c: true}, -1) {
+			return []int{c}
+		}
+	}
+	for c := 0; c < ncols; c++ {
+		for d := c + 1; d < ncols; d++ {
+			if c10SameMultiset(in, out, map[int]bool{c: true, d: true}, -1) {
+				return []int{c, d}
+			}
+		}
+	}
+	all := make([]int, ncols)
+	for c := range all {
+		all[c] = c
+	}
+	return all
+}
+
+// every one of these columns is a BYTE_ARRAY column in which some row written holds an empty
+// non-null value
+func c10AllEmptyByteArrayColumns(in []parquet.Row, cols []int) bool {
+	for _, c := range cols {
+		found := false
+		for _, r := range in {
+			for _, v := range r {
+				if v.Column() == c && !v.IsNull() && v.Kind() == parquet.ByteArray && len(v.ByteArray()) == 0 {
+					found = true
+				}
+			}
+		}
+		if !found {
+			return false
+		}
+	}
+	return len(cols) > 0
+}
+
+// the non-null values of each of these columns come out in exactly the order they were written
+func c10ColumnsKeepWrittenOrder(in, out []parquet.Row, cols []int) bool {
+	seq := func(rows []parquet.Row, c int) string {
+		var sb strings.Builder
+		for _, r := range rows {
+			for _, v := range r {
+				if v.Column() == c && !v.IsNull() {
+					sb.WriteString(gen.ValueKey(v) + ",")
+				}
+			}
+		}
+		return sb.String()
+	}
+	for _, c := range cols {
+		if seq(in, c) != seq(out, c) {
+			return false
+		}
+	}
+	return true
+}
+
 func c10KeyKinds(keys []c10Key) string {
 	seen := map[string]bool{}
 	for _, k := range keys {
@@ -1014,7 +1132,10 @@ func c10NullPattern(r *rand.Rand, n int) []bool {
 }
 
 var c10Ints = []int32{0, 1, 2, 3, -1, -2, 5, 100, math.MaxInt32, math.MinInt32}
-var c10Strs = []string{"a", "b", "ab", "abc", "b\x00", "\xff", "\xff\xff", "z", "aa"}
+// "" among the first three (the small alphabet): an EMPTY non-null value shares its offset with the
+// value stored after it in a byte-array column buffer (required strings, non-nil empty []byte,
+// elements of a []string); for `string,optional` fields it is one more null
+var c10Strs = []string{"a", "", "b", "ab", "abc", "b\x00", "\xff", "\xff\xff", "z", "aa"}
 var c10Floats = []float64{0, 1, -1, 2.5, math.Inf(1), math.Inf(-1), 1e-300, -2.5}
 
 func pick[T any](r *rand.Rand, pool []T, small bool) T {
@@ -1727,36 +1848,82 @@ type c10Rep struct {
 	L []int64 `parquet:"l"`
 }
 
+type c10RepE struct {
+	V *int64 `parquet:"v,optional"`
+}
+
+// a list whose ELEMENTS are nullable: r.v has max repetition level 1, max definition level 2
+// (0 empty list, 1 null element, 2 value); null elements take no slot in the base column
+type c10RepN struct {
+	R []c10RepE `parquet:"r"`
+}
+
 // one history on a single repeated int64 column: typed writes, row writes, Swap, Less, Page
 func c10RepHistory(ctx *core.Ctx, r *rand.Rand, reqs *[]string, pend *[]func(string)) {
-	s := c10Sort{Path: []string{"l"}, Desc: r.Intn(2) == 0, NullsFirst: r.Intn(2) == 0}
-	buf := parquet.NewGenericBuffer[c10Rep](parquet.SortingRowGroupConfig(parquet.SortingColumns(s.column())))
+	if r.Intn(2) == 0 {
+		c10RepHistoryOf(ctx, r, reqs, pend, []string{"l"}, 1, func(lists [][]*int64) []c10Rep {
+			batch := make([]c10Rep, len(lists))
+			for i, l := range lists {
+				for _, v := range l {
+					batch[i].L = append(batch[i].L, *v)
+				}
+			}
+			return batch
+		})
+		return
+	}
+	c10RepHistoryOf(ctx, r, reqs, pend, []string{"r", "v"}, 2, func(lists [][]*int64) []c10RepN {
+		batch := make([]c10RepN, len(lists))
+		for i, l := range lists {
+			for _, v := range l {
+				batch[i].R = append(batch[i].R, c10RepE{V: v})
+			}
+		}
+		return batch
+	})
+}
+
+// maxDef 1: the elements are required (lists of values); maxDef 2: elements may be null
+func c10RepHistoryOf[T any](ctx *core.Ctx, r *rand.Rand, reqs *[]string, pend *[]func(string), path []string, maxDef int, mk func([][]*int64) []T) {
+	s := c10Sort{Path: path, Desc: r.Intn(2) == 0, NullsFirst: r.Intn(2) == 0}
+	buf := parquet.NewGenericBuffer[T](parquet.SortingRowGroupConfig(parquet.SortingColumns(s.column())))
 	base := parquet.VerifBufferOf(buf)
 	schema := buf.Schema()
+	ctx.Hist("rep-history-max-definition-level", fmt.Sprint(maxDef))
 	var ops []string
 	var lessBits []byte
 	n := 0
 	write := func() {
 		k := 1 + r.Intn(6)
-		batch := make([]c10Rep, k)
-		for i := range batch {
+		lists := make([][]*int64, k)
+		for i := range lists {
 			for j := r.Intn(5); j > 0; j-- {
-				batch[i].L = append(batch[i].L, int64(1+r.Intn(4)))
+				if maxDef == 2 && r.Intn(3) == 0 {
+					lists[i] = append(lists[i], nil)
+					continue
+				}
+				v := int64(1 + r.Intn(4))
+				lists[i] = append(lists[i], &v)
 			}
-			if len(batch[i].L) == 0 {
+			if len(lists[i]) == 0 {
 				ops = append(ops, "w:0/0/n")
 			} else {
 				var cs []string
-				for j, v := range batch[i].L {
+				for j, v := range lists[i] {
 					rep := 1
 					if j == 0 {
 						rep = 0
 					}
-					cs = append(cs, fmt.Sprintf("%d/1/%d", rep, v))
+					if v == nil {
+						cs = append(cs, fmt.Sprintf("%d/%d/n", rep, maxDef-1))
+					} else {
+						cs = append(cs, fmt.Sprintf("%d/%d/%d", rep, maxDef, *v))
+					}
 				}
 				ops = append(ops, "w:"+strings.Join(cs, ";"))
 			}
 		}
+		batch := mk(lists)
 		if r.Intn(2) == 0 {
 			buf.Write(batch)
 			ctx.Hist("rep-history-op", "typed-write")
@@ -1840,13 +2007,143 @@ func c10RepHistory(ctx *core.Ctx, r *rand.Rand, reqs *[]string, pend *[]func(str
 	if s.Desc {
 		desc = "1"
 	}
-	req := fmt.Sprintf("repcol 1 %s %s %s", nf, desc, strings.Join(ops, " "))
+	req := fmt.Sprintf("repcol %d %s %s %s", maxDef, nf, desc, strings.Join(ops, " "))
 	got := fmt.Sprintf("ok rows=%s lv=%s base=%s less=%s", join(rowText), join(lvText), join(pageVals), bits)
 	ctx.Case(req, len(ops) > 3)
 	*reqs = append(*reqs, req)
 	*pend = append(*pend, func(ans string) {
 		if ans != got {
 			ctx.Fail("L2", "repeated-buffer-mirror", "repeated column buffer (row mappings, levels, page values, Less) differs from the Lean mirror",
+				map[string]any{"history": req, "impl": got, "model": ans, "variant": ctx.Variant})
+		}
+	})
+}
+
+// ---------------------------------------------------------------- L2: byte array column buffer
+
+type c10Str struct {
+	S string `parquet:"s"`
+}
+
+var c10BAStrs = []string{"", "", "a", "b", "ab", "", "abc", "\x00", "a"}
+
+// one history on a single required string column: typed writes, row writes, Swap, Page, against
+// the BACol mirror (offsets, end offset, lengths, value bytes, and the values of the last page
+// handed out)
+func c10BAHistory(ctx *core.Ctx, r *rand.Rand, reqs *[]string, pend *[]func(string)) {
+	buf := parquet.NewGenericBuffer[c10Str]()
+	schema := buf.Schema()
+	var ops []string
+	n := 0
+	hexOf := func(b []byte) string {
+		if len(b) == 0 {
+			return "-"
+		}
+		return hex.EncodeToString(b)
+	}
+	write := func() {
+		k := 1 + r.Intn(4)
+		batch := make([]c10Str, k)
+		for i := range batch {
+			batch[i].S = c10BAStrs[r.Intn(len(c10BAStrs))]
+			ops = append(ops, "w:"+hexOf([]byte(batch[i].S)))
+		}
+		switch r.Intn(3) {
+		case 0:
+			buf.Write(batch)
+			ctx.Hist("bytearray-history-op", "typed-write")
+		case 1:
+			rows := make([]parquet.Row, k)
+			for i := range batch {
+				rows[i] = schema.Deconstruct(nil, &batch[i])
+			}
+			buf.WriteRows(rows)
+			ctx.Hist("bytearray-history-op", "rows-write")
+		default:
+			vals := make([]parquet.Value, k)
+			for i := range batch {
+				vals[i] = parquet.ByteArrayValue([]byte(batch[i].S))
+			}
+			buf.ColumnBuffers()[0].WriteValues(vals)
+			ctx.Hist("bytearray-history-op", "column-write-values")
+		}
+		n += k
+	}
+	swaps := func(k int) {
+		for t := 0; t < k && n > 0; t++ {
+			i, j := r.Intn(n), r.Intn(n)
+			if r.Intn(3) > 0 && n > 1 { // mostly neighbours: an empty value next to a non-empty one
+				i = r.Intn(n - 1)
+				j = i + 1
+			}
+			buf.ColumnBuffers()[0].Swap(i, j)
+			ops = append(ops, fmt.Sprintf("s:%d:%d", i, j))
+			ctx.Hist("bytearray-history-op", "swap")
+		}
+	}
+	pageText := "none"
+	page := func() {
+		pg := buf.ColumnBuffers()[0].Page()
+		vals := make([]parquet.Value, pg.NumValues()+1)
+		m, _ := pg.Values().ReadValues(vals)
+		var vs []string
+		for _, v := range vals[:m] {
+			vs = append(vs, hexOf(v.ByteArray()))
+		}
+		pageText = "empty"
+		if len(vs) > 0 {
+			pageText = strings.Join(vs, ";")
+		}
+		ops = append(ops, "p")
+		ctx.Hist("bytearray-history-op", "page")
+	}
+	for steps := 1 + r.Intn(6); steps > 0; steps-- {
+		switch r.Intn(4) {
+		case 0, 1:
+			write()
+		case 2:
+			swaps(1 + r.Intn(3))
+		default:
+			page()
+		}
+	}
+	if r.Intn(3) > 0 {
+		page()
+	}
+	offs, lens, vals, ok := parquet.VerifByteArrayColumn(buf.ColumnBuffers()[0])
+	if !ok {
+		ctx.Fail("L2", "bytearray-buffer-mirror", "the column buffer of a required string column is not a byteArrayColumnBuffer", nil)
+		return
+	}
+	end := "n"
+	if len(offs) > len(lens) {
+		end = fmt.Sprint(offs[len(lens)])
+		offs = offs[:len(lens)]
+	}
+	list := func(xs []uint32) string {
+		if len(xs) == 0 {
+			return "-"
+		}
+		ss := make([]string, len(xs))
+		for i, x := range xs {
+			ss[i] = fmt.Sprint(x)
+		}
+		return strings.Join(ss, ",")
+	}
+	req := "bacol"
+	if len(ops) > 0 {
+		req += " " + strings.Join(ops, " ")
+	}
+	got := fmt.Sprintf("ok off=%s end=%s len=%s vals=%s page=%s", list(offs), end, list(lens), hexOf(vals), pageText)
+	emptyNextToValue := false
+	for i := 0; i+1 < len(lens); i++ {
+		emptyNextToValue = emptyNextToValue || (lens[i] == 0) != (lens[i+1] == 0)
+	}
+	ctx.Case(req, len(ops) > 3 && emptyNextToValue)
+	*reqs = append(*reqs, req)
+	*pend = append(*pend, func(ans string) {
+		if ans != got {
+			ctx.Fail("L2", "bytearray-buffer-mirror", "byte array column buffer (offsets, lengths, value bytes, values of the page handed out) differs from the Lean mirror",
 				map[string]any{"history": req, "impl": got, "model": ans, "variant": ctx.Variant})
 		}
 	})
@@ -2135,7 +2432,7 @@ func c10CutsRun(ctx *core.Ctx, cs *c10CutCase, reqs *[]string, pend *[]func(stri
 // ---------------------------------------------------------------- entry point
 
 func RunC10(ctx *core.Ctx) {
-	ctx.SetRule("L1: sort.Sort on GenericBuffer[T], Buffer, RowBuffer[T] and SortingWriter[T] Close, each through its typed Write and through its []Row entry point (WriteRows; the rows are lent from producer memory that is reused and overwritten after every call) over five struct schemas (required / optional pointer / optional zero-is-null / nested optional group / repeated leaves, also repeated leaves placed before the required key columns; required and optional leaves below two optional groups, below a repeated group and below a required group), 0-3 sorting columns x asc/desc x nulls first/last, null and value runs of length 1,2,3,7,8,9,15,16,17,64,65, small alphabets (duplicates), write batches around 8 and 64, explicit Flush() calls between the writes of a sorting writer, optional second phase (write more, sort again); a directed stream of sorting writers whose first sorting column is repeated (sort runs of 1-3 rows, short lists sharing prefixes); Write/WriteRows/Flush/Close histories on a sorting writer with sort runs of 1..64 rows, the writer reused through Reset (after Close, or abandoning the rows written so far) for a second history; L2: broadcastRangeInt32 for lengths 0..40,63..65,127..129,255,257 x 17 bases, and write/Swap/Less/Page histories on one optional column against the Lean OptCol mirror (flat, and as required / optional leaf of an optional group with nulls at every level below the maximum) and on one repeated column against the RepCol mirror; what Buffer.configure sets up (buffer kind, reversed wrapper, null ordering function) for every leaf of the static schemas and of random schemas nested up to depth 4 against the Lean mirror `configure`; the rows per temporary row group of the sorting writer against the Lean mirror of the writeRows loop. Distinct by canonical input; non-trivial = some nullable sorting column holds both nulls and values (L1), run length >= 8 not a multiple of 8 (kernel), more than 3 ops (history), a required leaf with inherited levels (configure), more than 2 calls (sorting writer history)")
+	ctx.SetRule("L1: sort.Sort on GenericBuffer[T], Buffer, RowBuffer[T] and SortingWriter[T] Close, each through its typed Write and through its []Row entry point (WriteRows; the rows are lent from producer memory that is reused and overwritten after every call) over five struct schemas (required / optional pointer / optional zero-is-null / nested optional group / repeated leaves, also repeated leaves placed before the required key columns; required and optional leaves below two optional groups, below a repeated group and below a required group), 0-3 sorting columns x asc/desc x nulls first/last, null and value runs of length 1,2,3,7,8,9,15,16,17,64,65, small alphabets (duplicates; the EMPTY string / empty non-nil []byte among the first three values of every byte-array pool), write batches around 8 and 64, explicit Flush() calls between the writes of a sorting writer, optional second phase (write more, sort again); a directed stream of sorting writers whose first sorting column is repeated (sort runs of 1-3 rows, short lists sharing prefixes); Write/WriteRows/Flush/Close histories on a sorting writer with sort runs of 1..64 rows, the writer reused through Reset (after Close, or abandoning the rows written so far) for a second history; L2: broadcastRangeInt32 for lengths 0..40,63..65,127..129,255,257 x 17 bases, and write/Swap/Less/Page histories on one optional column against the Lean OptCol mirror (flat, and as required / optional leaf of an optional group with nulls at every level below the maximum) and on one repeated column (required elements, and nullable elements with max definition level 2) against the RepCol mirror; write (typed / []Row / ColumnBuffer.WriteValues) / Swap / Page histories on a required string column against the BACol mirror of byteArrayColumnBuffer (values \"\", a, b, ab, abc, 00; swaps mostly between neighbours); what Buffer.configure sets up (buffer kind, reversed wrapper, null ordering function) for every leaf of the static schemas and of random schemas nested up to depth 4 against the Lean mirror `configure`; the rows per temporary row group of the sorting writer against the Lean mirror of the writeRows loop. Distinct by canonical input; non-trivial = some nullable sorting column holds both nulls and values (L1), run length >= 8 not a multiple of 8 (kernel), more than 3 ops (history; byte array history: and an empty value next to a non-empty one), a required leaf with inherited levels (configure), more than 2 calls (sorting writer history)")
 	d := ctx.Driver()
 	if ctx.Replay != "" {
 		c10Guard(ctx, "panic-in-replay", "replaying a recorded case panicked", func() map[string]any { return map[string]any{"file": ctx.Replay} },
@@ -2167,9 +2464,19 @@ func RunC10(ctx *core.Ctx) {
 		var pend []func(string)
 		// … on a required / optional leaf of an optional group (null at levels below the maximum)
 		rn := ctx.Rand("c10-nested-history")
-		for i, n := 0, ctx.Scale(1500, 9000); i < n; i++ {
+		for i, n := 0, ctx.Scale(1500, 6000); i < n; i++ {
 			c10Guard(ctx, "panic-in-optional-buffer-history", "a write/Swap/Less/Page history panicked outside its guarded operations", nil,
 				func() { c10HistoryNested(ctx, rn, &reqs, &pend) })
+			if len(reqs) >= 2000 {
+				c06Flush(ctx, d2, &reqs, &pend)
+			}
+		}
+		c06Flush(ctx, d2, &reqs, &pend)
+		// … write/Swap/Page histories on a byte array column buffer against the BACol mirror
+		rb := ctx.Rand("c10-bytearray-history")
+		for i, n := 0, ctx.Scale(3000, 10000); i < n; i++ {
+			c10Guard(ctx, "panic-in-bytearray-buffer-history", "a write/Swap/Page history on a byte array column buffer panicked", nil,
+				func() { c10BAHistory(ctx, rb, &reqs, &pend) })
 			if len(reqs) >= 2000 {
 				c06Flush(ctx, d2, &reqs, &pend)
 			}
@@ -2179,7 +2486,7 @@ func RunC10(ctx *core.Ctx) {
 		rc := ctx.Rand("c10-configure")
 		static := []*parquet.Schema{parquet.SchemaOf(new(c10A)), parquet.SchemaOf(new(c10B)), parquet.SchemaOf(new(c10C)),
 			parquet.SchemaOf(new(c10D)), parquet.SchemaOf(new(c10E)), parquet.SchemaOf(new(c10Nest1)), parquet.SchemaOf(new(c10Nest2))}
-		for i, n := 0, ctx.Scale(2000, 12000); i < n; i++ {
+		for i, n := 0, ctx.Scale(2000, 8000); i < n; i++ {
 			c10Guard(ctx, "panic-in-buffer-configure", "NewBuffer on a nested schema with sorting columns panicked", nil, func() {
 				var schema *parquet.Schema
 				if i < 40*len(static) {
@@ -2200,7 +2507,7 @@ func RunC10(ctx *core.Ctx) {
 		c06Flush(ctx, d2, &reqs, &pend)
 		// … and the run cuts of the sorting writer over Write/WriteRows/Flush histories
 		rw := ctx.Rand("c10-sorting-writer-history")
-		for i, n := 0, ctx.Scale(1000, 6000); i < n; i++ {
+		for i, n := 0, ctx.Scale(1000, 4000); i < n; i++ {
 			c10Guard(ctx, "panic-in-sorting-writer-history", "a Write/WriteRows/Flush/Close history on a sorting writer panicked", nil,
 				func() { c10Cuts(ctx, rw, &reqs, &pend) })
 			if len(reqs) >= 1000 {
@@ -2210,12 +2517,15 @@ func RunC10(ctx *core.Ctx) {
 		c06Flush(ctx, d2, &reqs, &pend)
 	}()
 	defer extras.Wait()
-	// 2. L2 histories
-	{
+	// 2. L2 histories (on the first driver, which the kernel sweep no longer needs; concurrently
+	// with the L1 cases below, which do not talk to a driver)
+	extras.Add(1)
+	go func() {
+		defer extras.Done()
 		r := ctx.Rand("c10-history")
 		var reqs []string
 		var pend []func(string)
-		for i, n := 0, ctx.Scale(6000, 60000); i < n; i++ {
+		for i, n := 0, ctx.Scale(6000, 24000); i < n; i++ {
 			c10Guard(ctx, "panic-in-optional-buffer-history", "a write/Swap/Less/Page history panicked outside its guarded operations", nil,
 				func() { c10History(ctx, r, &reqs, &pend) })
 			if len(reqs) >= 2000 {
@@ -2225,7 +2535,7 @@ func RunC10(ctx *core.Ctx) {
 		c06Flush(ctx, d, &reqs, &pend)
 		// … and on a repeated column against the RepCol mirror
 		rr := ctx.Rand("c10-rep-history")
-		for i, n := 0, ctx.Scale(3000, 30000); i < n; i++ {
+		for i, n := 0, ctx.Scale(3000, 12000); i < n; i++ {
 			c10Guard(ctx, "panic-in-repeated-buffer-history", "a write/Swap/Less/Page history on a repeated column panicked",
 				nil, func() { c10RepHistory(ctx, rr, &reqs, &pend) })
 			if len(reqs) >= 2000 {
@@ -2233,10 +2543,10 @@ func RunC10(ctx *core.Ctx) {
 			}
 		}
 		c06Flush(ctx, d, &reqs, &pend)
-	}
+	}()
 	// 3. L1 cases, in parallel per worker (each with its own PRNG stream)
 	workers := 16
-	per := ctx.Scale(8000, 120000) / workers
+	per := ctx.Scale(8000, 48000) / workers
 	var wg sync.WaitGroup
 	for w := 0; w < workers; w++ {
 		wg.Add(1)
@@ -2261,7 +2571,7 @@ func RunC10(ctx *core.Ctx) {
 	// temporary row groups must order lists element-wise, a proper prefix first, in both directions
 	{
 		r := ctx.Rand("c10-sortw-repeated-key")
-		for i, n := 0, ctx.Scale(800, 8000); i < n; i++ {
+		for i, n := 0, ctx.Scale(800, 3200); i < n; i++ {
 			var ti int
 			for ti = r.Intn(len(c10Types)); c10Types[ti].nrep == 0; ti = r.Intn(len(c10Types)) {
 			}
